@@ -177,6 +177,22 @@ class Builtins:
             return ex.coerce(v, ty, what)
         if ty.kind == "opt":
             return ex.coerce(self.lower(v, ty.args[0], st, what), ty, what)
+        if v.kind in ("cset", "tuple") and ty.kind == "vset":
+            t = SV("vs_empty", T.VSET)
+            for x in v.data:
+                t = ex.vset_add(t, x)
+            return t
+        if v.kind == "cdict" and ty.kind == "qmap":
+            vv = ty.args[0]
+            mk, tab, keyf = T.qm_names(vv)
+            S.sort(ty)
+            empty_tab = "((as const (Array String %s)) %s)" % (
+                S.sort(vv) if T.total_map_value(vv) else S.sort(T.Opt(vv)),
+                ("vs_empty" if vv.kind == "vset" else "(as seq.empty %s)" % S.sort(vv)) if T.total_map_value(vv) else S.none(vv))
+            t = SV("(%s %s ((as const (Array String QN)) (mkQN (mkNs \"\" \"\") \"\")))" % (mk, empty_tab), ty)
+            for a, b in v.data:
+                t = ex.map_put(t, a, b)
+            return t
         if v.kind in ("cset", "tuple") and ty.kind == "set":
             t = S.empty_set(ty.args[0])
             for x in v.data:
@@ -212,7 +228,7 @@ class Builtins:
                 elif isinstance(it, PyV) and it.kind == "cdictitems":
                     items = [PyV("tuple", [a, b]) for a, b in it.data]
                 else:
-                    raise Unsupported("comprehension over %r" % (it,), e)
+                    return self.symbolic_comprehension(e, s, k, ctl)
                 out = []
 
                 def go(i, s2):
@@ -224,7 +240,87 @@ class Builtins:
                 return go(0, s)
 
             return ex.ev(g.iter, st, got, ctl)
-        raise Unsupported("comprehension shape", e)
+        return self.symbolic_comprehension(e, st, k, ctl)
+
+    def member_binding(self, it, node):
+        """an arbitrary member of a symbolic iterable: (binders, condition, value)"""
+        ex, cx, S = self.ex, self.cx, self.cx.sorts
+        u = next(cx.counter)
+        if isinstance(it, SV) and it.ty.kind == "qmap":
+            it = PyV("mapkeys", it)
+        if isinstance(it, PyV) and it.kind in ("mapitems", "mapkeys", "mapvalues") and it.data.ty.kind == "qmap":
+            m = it.data
+            vv = m.ty.args[0]
+            mk, tab, keyf = T.qm_names(vv)
+            uv = "cu_%d" % u
+            cell = "(select (%s %s) %s)" % (tab, m.t, uv)
+            key = SV("(select (%s %s) %s)" % (keyf, m.t, uv), T.QN)
+            val = SV(cell if T.total_map_value(vv) else S.the(vv, cell), vv)
+            v = key if it.kind == "mapkeys" else val if it.kind == "mapvalues" else PyV("tuple", [key, val])
+            return [(uv, "String")], ex.cell_present(cell, vv), v
+        if isinstance(it, SV) and it.ty.kind == "vset":
+            cv = "cc_%d" % u
+            return [(cv, "Val")], "(select (vs_has %s) %s)" % (it.t, cv), SV("(select (vs_rep %s) %s)" % (it.t, cv), T.VAL)
+        if isinstance(it, SV) and it.ty.kind == "seq":
+            iv = "ci_%d" % u
+            return [(iv, "Int")], "(and (<= 0 %s) (< %s (seq.len %s)))" % (iv, iv, it.t), SV("(seq.nth %s %s)" % (it.t, iv), it.ty.args[0])
+        if isinstance(it, PyV) and it.kind in ("mapitems", "mapkeys", "mapvalues"):
+            m = it.data
+            kk, vv = m.ty.args
+            kv = "ck_%d" % u
+            key = SV(kv, kk)
+            val = ex.map_get(m, key)
+            v = key if it.kind == "mapkeys" else val if it.kind == "mapvalues" else PyV("tuple", [key, val])
+            return [(kv, S.sort(kk))], ex.map_has(m, key), v
+        raise Unsupported("comprehension over %r" % (it,), node)
+
+    def symbolic_comprehension(self, e, st, k, ctl):
+        """[elt for x in it1 for y in it2(x) if c]  ->  an abstract list characterised by membership:
+        forall z. z in result  <=>  exists x, y. x in it1 /\ y in it2(x) /\ c /\ z == elt
+        (order and multiplicity are not determined; consumers that need them leave the subset)."""
+        ex, cx, S = self.ex, self.cx, self.cx.sorts
+        binders, conds = [], []
+        s = st.copy(spec=True)
+        env0 = st.env
+        for g in e.generators:
+            it = ex.spec_eval(g.iter, s)
+            b, c, v = self.member_binding(it, e)
+            binders += b
+            conds.append(c)
+            box = []
+            ex.assign(g.target, v, s, lambda s2: box.append(s2), None)
+            s = box[0]
+            for cond in g.ifs:
+                conds.append(ex.spec_bool(cond, s))
+        elt = ex.spec_eval(e.elt, s)
+        if isinstance(elt, PyV) and elt.kind == "tuple":
+            ety = T.Tup(*[x.ty for x in elt.data])
+            elt = self.lower(elt, ety, st)
+        ety = elt.ty
+        r = cx.fresh("comp", T.Seq(ety))
+        es = S.sort(ety)
+        z = "cz_%d" % next(cx.counter)
+        bs = " ".join("(%s %s)" % b for b in binders)
+        body = AND(*conds)
+        ax1 = "(forall ((%s %s)) (=> (seq.contains %s (seq.unit %s)) (exists (%s) (and %s (= %s %s)))))" % (z, es, r.t, z, bs, body, z, elt.t)
+        ax2 = "(forall (%s) (=> %s (seq.contains %s (seq.unit %s))))" % (bs, body, r.t, elt.t)
+        out = st.assume(ax1, ax2)
+        return k(out, r)
+
+    def canon_pair_set(self, seq, st):
+        """set(list of (name, value) pairs): a python set, i.e. the pairs modulo ==/hash - represented by
+        the set of canonical pairs (URI of the name, ck of the value): canonset(list)"""
+        cx, S = self.cx, self.cx.sorts
+        pt = T.Tup(T.STR, T.VAL)
+        pn = S.sort(pt)
+        tn = S.sort(T.Tup(T.QN, T.VAL))
+        self.ex.need_canon_in()
+        if "canonset" not in cx.funs_known:
+            cx.funs_known.add("canonset")
+            cx.funs.append("(declare-fun canonset ((Seq %s)) (Array %s Bool))" % (tn, pn))
+            cx.funs.append("(assert (forall ((l (Seq %s)) (p %s)) (= (select (canonset l) p) (canon_in l (%s_0 p) (%s_1 p)))))"
+                           % (tn, pn, pn, pn))
+        return st, SV("(canonset %s)" % seq.t, T.SetT(pt))
 
     def star_call(self, e, st, k, ctl):
         raise Unsupported("*args call", e)
@@ -257,6 +353,12 @@ class Builtins:
                 return k(st, SV("(str.len %s)" % a.t, T.INT))
             if isinstance(a, SV) and a.ty.kind == "seq":
                 return k(st, SV("(seq.len %s)" % a.t, T.INT))
+            if isinstance(a, SV) and a.ty.kind == "vset":
+                return k(st, SV("(vs_n %s)" % a.t, T.INT))
+            if isinstance(a, SV) and a.ty.kind == "oset":
+                return k(st, SV("(os_n %s)" % a.t, T.INT))
+            if isinstance(a, SV) and a.ty.kind == "qmap":
+                return k(st, SV(self.qmap_card(a), T.INT))
             if isinstance(a, SV) and a.ty.kind in ("set", "map"):
                 return k(st, SV(self.card(a), T.INT))
             raise Unsupported("len of %r" % (a,), node)
@@ -285,6 +387,12 @@ class Builtins:
                 return k(st, PyV("cset", list(a.data)))
             if isinstance(a, SV) and a.ty.kind == "set":
                 return k(st, a)
+            if isinstance(a, SV) and a.ty == T.Seq(T.Tup(T.QN, T.VAL)):
+                return k(*self.canon_pair_set(a, st))
+            if isinstance(a, SV) and a.ty.kind == "seq" and a.ty.args[0].kind == "ref":
+                # set of record objects: membership by ProvRecord.__hash__/__eq__, i.e. by the record key
+                self.cx.deps.add("eqmodel:ProvRecord.__eq__/__hash__")
+                return k(st, ex.oset_of_seq(a, st))
             if isinstance(a, PyV) and a.kind == "mapvalues":
                 m = a.data
                 kk, vv = m.ty.args
@@ -292,6 +400,17 @@ class Builtins:
                 return k(st, SV("(lambda ((e %s)) (exists ((k %s)) (= (select %s k) %s)))"
                                 % (es, ks, m.t, S.some(vv, "e")), T.SetT(vv)))
             raise Unsupported("set() of %r" % (a,), node)
+        if name == "iter":
+            return k(st, PyV("iter", args[0]))
+        if name == "next":
+            it = args[0]
+            if isinstance(it, PyV) and it.kind == "iter" and isinstance(it.data, SV) and it.data.ty.kind == "vset" and len(args) == 2:
+                s_ = it.data
+                d = ex.box(args[1])
+                # the first element in iteration order: some fixed member (choice function vs_firstkey)
+                self.cx.axioms.append("(=> (not (= (vs_has %s) ((as const (Array Val Bool)) false))) (select (vs_has %s) (vs_firstkey %s)))" % (s_.t, s_.t, s_.t))
+                return k(st, SV(ITE("(= (vs_n %s) 0)" % s_.t, d.t, "(select (vs_rep %s) (vs_firstkey %s))" % (s_.t, s_.t)), T.VAL))
+            raise Unsupported("next() on %r" % (it,), node)
         if name == "type":
             return k(st, PyV("typeof", args[0]))
         if name == "super":
@@ -312,6 +431,26 @@ class Builtins:
             if a.ty == T.INT:
                 return k(st, a)
         raise Unsupported("builtin %s" % name, node)
+
+    def qmap_card(self, m):
+        """len(dict): the number of keys; sizes of finite key sets obey pigeonhole (instances are added for
+        every pair of dicts whose lengths are taken in the same unit)"""
+        cx, ex = self.cx, self.ex
+        vv = m.ty.args[0]
+        mk, tab, keyf = T.qm_names(vv)
+        n = cx.fresh("dlen", T.INT)
+        pres = lambda t, u: ex.cell_present("(select (%s %s) %s)" % (tab, t, u), vv)
+        cx.axioms.append("(>= %s 0)" % n.t)
+        reg = cx.__dict__.setdefault("_qcards", [])
+        for (m2, tab2, vv2, n2) in reg:
+            p2 = lambda t, u: ex.cell_present("(select (%s %s) %s)" % (tab2, t, u), vv2)
+            for (a, pa, na, b, pb, nb) in ((m.t, pres, n.t, m2, p2, n2), (m2, p2, n2, m.t, pres, n.t)):
+                cx.axioms.append("(=> (and (= %s %s) (forall ((u String)) (=> %s %s))) (forall ((u String)) (=> %s %s)))" % (
+                    na, nb, pa(a, "u"), pb(b, "u"), pb(b, "u"), pa(a, "u")))
+            cx.axioms.append("(=> (forall ((u String)) (= %s %s)) (= %s %s))" % (pres(m.t, "u"), p2(m2, "u"), n.t, n2))
+        reg.append((m.t, tab, vv, n.t))
+        cx.notes.append("trusted: pigeonhole instance for the key sets of dicts whose len() is compared")
+        return n.t
 
     def hasattr(self, o, name, node):
         if isinstance(o, SV):
@@ -338,15 +477,18 @@ class Builtins:
         return "(%s %s)" % (fn, a.t)
 
     def hash_of(self, v, st, node):
-        """hash(): uninterpreted, constrained by the verified __hash__ contracts (DESIGN 2.3)"""
+        """hash(): hash_str is uninterpreted; the hashes of library values are *defined* by their verified
+        __hash__ contracts (QualifiedName: hash(uri); Identifier: hash((uri, class)); Namespace:
+        hash((uri, prefix)); Literal: hash((value, datatype, langtag)))."""
         ex = self.ex
-        if isinstance(v, PyV) and v.kind == "tuple":
-            hs = [self.hash_of(x, st, node) for x in v.data]
-            fn = "hash_tuple%d" % len(hs)
+        def uf(fn, *args):
             if fn not in self.cx.funs_known:
                 self.cx.funs_known.add(fn)
-                self.cx.funs.append("(declare-fun %s (%s) Int)" % (fn, " ".join(["Int"] * len(hs))))
-            return "(%s %s)" % (fn, " ".join(hs))
+                self.cx.funs.append("(declare-fun %s (%s) Int)" % (fn, " ".join(["Int"] * len(args))))
+            return "(%s %s)" % (fn, " ".join(args)) if args else fn
+        if isinstance(v, PyV) and v.kind == "tuple":
+            hs = [self.hash_of(x, st, node) for x in v.data]
+            return uf("hash_tuple%d" % len(hs), *hs)
         if isinstance(v, PyV) and v.kind == "class":
             return ilit(self.cx.class_ids[v.data.name])
         if isinstance(v, PyV) and v.kind == "typeof":
@@ -355,22 +497,40 @@ class Builtins:
                 return ilit(self.cx.class_ids[ex.VALUE_CLASS_OF[o.ty.kind]])
             raise Unsupported("hash of type()", node)
         if isinstance(v, SV):
-            if v.ty == T.STR:
+            k = v.ty.kind
+            S = self.cx.sorts
+            if k == "str":
                 return "(hash_str %s)" % v.t
-            if v.ty.kind in ("Ns", "QN", "Ident", "Lit", "opt", "int", "bool"):
-                fn = "hash_" + T.mangle(v.ty)
+            if k == "none":
+                return uf("hash_none")
+            if k == "QN":
+                self.cx.deps.add("hashmodel:QualifiedName.__hash__")
+                return "(hash_str (qn_uri %s))" % v.t
+            if k == "Ident":
+                self.cx.deps.add("hashmodel:Identifier.__hash__")
+                return "(hash_str %s)" % v.t
+            if k == "Ns":
+                self.cx.deps.add("hashmodel:Namespace.__hash__")
+                return uf("hash_tuple2", "(hash_str (ns_uri %s))" % v.t, "(hash_str (ns_prefix %s))" % v.t)
+            if k == "Lit":
+                self.cx.deps.add("hashmodel:Literal.__hash__")
+                return uf("hash_tuple3", "(hash_str (lit_value %s))" % v.t,
+                          self.hash_of(SV("(lit_dt %s)" % v.t, T.Opt(T.QN)), st, node),
+                          self.hash_of(SV("(lit_lang %s)" % v.t, T.Opt(T.STR)), st, node))
+            if k == "opt":
+                inner = v.ty.args[0]
+                return ITE(S.is_none(inner, v.t), uf("hash_none"), self.hash_of(SV(S.the(inner, v.t), inner), st, node))
+            if k == "int":
+                return uf("hash_int", v.t)
+            if k == "bool":
+                return uf("hash_int", "(int_of_bool %s)" % v.t)
+            if k == "set":
+                fn = "hash_fset_" + T.mangle(v.ty)
                 if fn not in self.cx.funs_known:
                     self.cx.funs_known.add(fn)
-                    self.cx.funs.append("(declare-fun %s (%s) Int)" % (fn, self.cx.sorts.sort(v.ty)))
-                    self.add_hash_axioms(fn, v.ty)
+                    self.cx.funs.append("(declare-fun %s (%s) Int)" % (fn, S.sort(v.ty)))
                 return "(%s %s)" % (fn, v.t)
         raise Unsupported("hash of %r" % (v,), node)
-
-    def add_hash_axioms(self, fn, ty):
-        """the verified __hash__ contracts, stated as definitions of the hash symbols"""
-        if ty == T.QN:
-            self.cx.funs.append("(assert (forall ((q QN)) (= (hash_QN q) (hash_str (qn_uri q)))))")
-            self.cx.deps.add("hashmodel:QualifiedName.__hash__")
 
     # ------------------------------------------------------------ methods on values
     def method(self, f, args, kwargs, st, k, ctl, node):
@@ -396,7 +556,7 @@ class Builtins:
         k_ = o.ty.kind
         if k_ == "str":
             return self.str_method(o, name, args, st, k, ctl, node)
-        if k_ == "map":
+        if k_ in ("map", "qmap"):
             return self.map_method(o, name, args, st, k, ctl, node)
         if k_ == "DT" and name == "isoformat":
             return k(st, SV("(dt_iso %s)" % o.t, T.STR))
@@ -405,7 +565,7 @@ class Builtins:
     def map_method(self, m, name, args, st, k, ctl, node, recv=None):
         ex = self.ex
         S = self.cx.sorts
-        kk, vv = m.ty.args
+        vv = m.ty.args[-1]
         if name == "values":
             return k(st, PyV("mapvalues", m))
         if name == "keys":
@@ -486,6 +646,15 @@ class Builtins:
     def mutate(self, o, name, args, st, place, k, ctl, node):
         ex = self.ex
         S = self.cx.sorts
+        if o.ty.kind == "oset" and name == "remove":
+            key = ex.rkey_term(args[0].t, st)
+            line = getattr(node, "lineno", "?")
+            self.cx.oblige("remove-present@%s" % line, st, "(select (os_has %s) %s)" % (o.t, key), {"kind": "safety"})
+            new = SV("(mkOSet (store (os_has %s) %s false) (os_rep %s) (- (os_n %s) 1))" % (o.t, key, o.t, o.t), T.OSET)
+            return ex.write_back(place, new, st, lambda s: k(s, SV("none", T.NONE)), ctl)
+        if o.ty.kind == "vset" and name == "add":
+            new = ex.vset_add(o, args[0])
+            return ex.write_back(place, new, st, lambda s: k(s, SV("none", T.NONE)), ctl)
         if o.ty.kind == "set" and name == "add":
             new = SV("(store %s %s true)" % (o.t, ex.key_term(args[0], o.ty.args[0])), o.ty)
             return ex.write_back(place, new, st, lambda s: k(s, SV("none", T.NONE)), ctl)
@@ -531,6 +700,79 @@ class Builtins:
         S = self.cx.sorts
         a = args
         B = lambda t: SV(t, T.BOOL)
+        if name == "ck":
+            return SV("(ck %s)" % ex.box(a[0]).t, T.VAL)
+        if name == "vs_has":
+            return B("(select (vs_has %s) %s)" % (a[0].t, ex.box(a[1]).t))
+        if name == "vs_rep":
+            return SV("(select (vs_rep %s) %s)" % (a[0].t, ex.box(a[1]).t), T.VAL)
+        if name == "vs_n":
+            return SV("(vs_n %s)" % a[0].t, T.INT)
+        if name == "vs_in":
+            return B(ex.vset_in(a[0], a[1]))
+        if name == "vs_wf":
+            return B("(vs_wf %s)" % a[0].t)
+        if name == "vs_first":
+            return SV("(vs_first %s)" % a[0].t, T.VAL)
+        if name == "vs_add":
+            return ex.vset_add(a[0], a[1])
+        if name == "vs_empty":
+            return SV("vs_empty", T.VSET)
+        if name in ("qm_has", "qm_get", "qm_key"):
+            m = a[0]
+            vv = m.ty.args[0]
+            mk, tab, keyf = T.qm_names(vv)
+            S.sort(m.ty)
+            u = a[1].t if a[1].ty == T.STR else ex.qkey(a[1])
+            cell = "(select (%s %s) %s)" % (tab, m.t, u)
+            if name == "qm_has":
+                return B(ex.cell_present(cell, vv))
+            if name == "qm_key":
+                return SV("(select (%s %s) %s)" % (keyf, m.t, u), T.QN)
+            return SV(cell if T.total_map_value(vv) else S.the(vv, cell), vv)
+        if name == "pair":
+            pt = T.Tup(a[0].ty, a[1].ty)
+            return SV("(mk_%s %s %s)" % (S.sort(pt), a[0].t, a[1].t), pt)
+        if name == "seq_has":
+            x = ex.coerce(a[1], a[0].ty.args[0])
+            return B("(seq.contains %s (seq.unit %s))" % (a[0].t, x.t))
+        if name == "attr_set":
+            # the python set of (name, value) pairs of an attribute table, as a set of canonical pairs
+            pt = T.Tup(T.STR, T.VAL)
+            pn = S.sort(pt)
+            ms = S.sort(a[0].ty)
+            if "attrset" not in self.cx.funs_known:
+                self.cx.funs_known.add("attrset")
+                self.cx.funs.append("(declare-fun attrset (%s) (Array %s Bool))" % (ms, pn))
+                self.cx.funs.append("(assert (forall ((m %s) (p %s)) (= (select (attrset m) p) "
+                                    "(select (vs_has (select (%s m) (%s_0 p))) (%s_1 p)))))" % (ms, pn, T.qm_names(T.VSET)[1], pn, pn))
+            return SV("(attrset %s)" % a[0].t, T.SetT(pt))
+        if name == "set_has":
+            x = ex.coerce(a[1], a[0].ty.args[0]) if isinstance(a[1], SV) else a[1]
+            return B("(select %s %s)" % (a[0].t, x.t))
+        if name == "rkey":
+            return SV(ex.rkey_term(a[0].t, st), T.RKEY)
+        if name == "rec_keys":
+            return SV(ex.rec_keys(a[0], st), T.SetT(T.RKEY))
+        if name == "os_has":
+            if len(a) == 1:
+                return SV("(os_has %s)" % a[0].t, T.SetT(T.RKEY))
+            return B("(select (os_has %s) %s)" % (a[0].t, a[1].t))
+        if name == "os_n":
+            return SV("(os_n %s)" % a[0].t, T.INT)
+        if name == "os_rep":
+            if len(a) == 2:
+                return SV("(select (os_rep %s) %s)" % (a[0].t, a[1].t), T.Ref("ProvRecord"))
+            return SV("(os_rep %s)" % a[0].t, T.T("tarray", T.RKEY, T.Ref("ProvRecord")))
+        if name == "entry":
+            return st.env["$entry"][unslit(a[0].t)]
+        if name == "canon_set":
+            return self.canon_pair_set(a[0], st)[1]
+        if name == "canon_in":
+            ex.need_canon_in()
+            return B("(canon_in %s %s %s)" % (a[0].t, a[1].t, ex.box(a[2]).t))
+        if name == "hash_of":
+            return SV(self.hash_of(a[0], st, node), T.INT)
         if name == "tbl":
             return ex.dict_self(a[0], st)
         if name == "same":
